@@ -6,11 +6,12 @@ import HotXL.Driver.Cell
 import HotXL.Driver.Emitter
 import HotXL.Driver.Eval
 import HotXL.Driver.Math
+import HotXL.Driver.Interleave
 open HotXL
 
 def handlers : List (String → List Sexp → Option String) :=
   [HotXL.Driver.Cell.handle, HotXL.Driver.Emitter.handle, HotXL.Driver.Eval.handle,
-   HotXL.Driver.Math.handle]
+   HotXL.Driver.Math.handle, HotXL.Driver.Interleave.handle]
 
 def answer (line : String) : String :=
   match Sexp.parseLine line with
